@@ -16,7 +16,7 @@ StateRec ==
                     exec |-> last'.exec, twice |-> last'.twice, ok |-> last'.ok, failed |-> last'.failed, skipped |-> last'.skipped,
                     dec |-> last'.dec, why |-> last'.why, loaded |-> last'.loaded,
                     cleanws |-> [t \in Targets |-> S(last'.cleanws[t])], cleanok |-> last'.cleanok]
-              ELSE [kind |-> last'.kind, t |-> IF last'.kind = "platform" THEN "" ELSE last'.t] ]
+              ELSE [kind |-> last'.kind, t |-> IF last'.kind \in {"platform", "relocate"} THEN "" ELSE last'.t] ]
 
 Header ==
   [ targets |-> Targets, order |-> Order, decldeps |-> DeclDeps, aliases |-> Aliases, outkind |-> OutKind,
